@@ -1076,6 +1076,7 @@ struct Extractor {
         J.attribute("static", true);
       if (M->isPure())
         J.attribute("pure", true);
+      J.attribute("access", getAccessSpelling(M->getAccess()));
       if (M->size_overridden_methods() > 0) {
         J.attributeArray("overrides", [&] {
           for (auto *O : M->overridden_methods())
@@ -1275,6 +1276,7 @@ struct Extractor {
                     J.attribute("implicit", true);
                   if (M->isDeleted())
                     J.attribute("deleted", true);
+                  J.attribute("access", getAccessSpelling(M->getAccess()));
                   auto it = fn_ids.find(M->getCanonicalDecl());
                   if (it != fn_ids.end())
                     J.attribute("fn", it->second);
